@@ -554,12 +554,35 @@ def runOp : Op → String
 
 def stripSpace (s : Str) : Str := s.dropWhile isSpace
 
+def dropUs : Str → Str
+  | c :: r => if c = 'u' then dropUs r else c :: r
+  | [] => []
+
+/-- the text contains a `\\uXXXX` escape whose digits name a UTF-16 surrogate (classification of a panic only) -/
+def hasSurrogateEscape : Str → Bool
+  | [] => false
+  | c :: r =>
+    (c == '\\' &&
+      (match r with
+       | u :: r' =>
+         u == 'u' &&
+          (match dropUs r' with
+           | a :: b :: _ => (a == 'd' || a == 'D') && (hexDigitVal b).any (fun v => decide (8 ≤ v))
+           | _ => false)
+       | [] => false)) || hasSurrogateEscape r
+
+/-- Names the cause of an observed reader panic (the verdict itself does not depend on the model). -/
+def panicReason (frame : Str) : String :=
+  if hasSurrogateEscape frame then "reader-panic-surrogate-escape"
+  else if peel frame = .panic then "reader-panic-empty-name"
+  else "reader-panic"
+
 /-- Violation reason, if any, of one observed `rt`/`peel` line. -/
 def monStep (op : Op) (out : String) : Option String :=
   match op with
-  | .peel _ =>
+  | .peel f =>
     match Peeled.parse (words out) with
-    | some .panic => some "reader-panic"
+    | some .panic => some (panicReason f)
     | some _ => none
     | none => some "unparsable"
   | .rt m =>
